@@ -15,7 +15,7 @@ Exactness of the output itself is a statement about runtime values; what *is* vi
               `max_bits < mantissa_bits`, and max_bits saturates from usize::MAX when max_significant_digits is None
 Not decided: that the digits written by the integer writer for the shifted mantissa, cut at the computed position,
 denote the float (C03 decides the integer writer's tables)."""
-from rules.core import (guarded, callee_name, last_seg, op_expr, rvalue_expr, show, strip_casts, expr_calls, path_conditions)
+from rules.core import (guarded, guarded_soft, callee_name, last_seg, op_expr, rvalue_expr, show, strip_casts, expr_calls, path_conditions)
 from rules.pathmodel import Model, Shape, Panic
 
 INFO = {
@@ -207,11 +207,11 @@ def run(col, configs, tier):
             continue
         guarded(col, rule_tables, facts)
         guarded(col, rule_operands, facts)
-        guarded(col, rule_default_exact, facts)
+        guarded_soft(col, rule_default_exact, facts)
         from rules import tbl_write_integer as I6
         guarded(col, I6.rule_digit_tables, facts)
         from rules import c14, c08
-        guarded(col, c14.rule_binary_round, facts)
+        guarded_soft(col, c14.rule_binary_round, facts)
         guarded(col, c08.rule_mask_shift, facts)
         from rules import dispatch
         guarded(col, dispatch.rule_dispatch_table, facts)
